@@ -436,18 +436,28 @@ class KafkaCodec(object):
 
             codec = att & ATTRIBUTE_CODEC_MASK
 
+            def absolute(inner):
+                # In message format 1 the messages inside a compressed wrapper carry
+                # offsets relative to the first one, and the wrapper carries the
+                # absolute offset of the last one (KIP-31).
+                inner = list(inner)
+                if inner:
+                    base = offset - inner[-1].offset
+                    for relative, msg in inner:
+                        yield base + relative, msg
+
             if codec == CODEC_NONE:
                 yield offset, Message(magic, att, key, value, timestamp)
 
             elif codec == CODEC_GZIP:
                 gz = gzip_decode(value)
-                for offset, msg in KafkaCodec._decode_message_set_iter(gz):
-                    yield offset, msg
+                for inner_offset, msg in absolute(KafkaCodec._decode_message_set_iter(gz)):
+                    yield inner_offset, msg
 
             elif codec == CODEC_SNAPPY:
                 snp = snappy_decode(value)
-                for offset, msg in KafkaCodec._decode_message_set_iter(snp):
-                    yield offset, msg
+                for inner_offset, msg in absolute(KafkaCodec._decode_message_set_iter(snp)):
+                    yield inner_offset, msg
 
             else:
                 raise ProtocolError("Unsupported codec 0b{:b}".format(codec))
